@@ -74,17 +74,53 @@ def make_dialect(i, spec, drop=()):
     return type("D", (Dialect,), ns)          # every dialect has the same __name__
 
 
+def layer_dialects(B, D):
+    """D layered over B as the lookups do it (not through Dialect.merge): every option from the first of (D, B) that
+    sets it; per type and per direction the callable of the first of (D, B) that provides that direction."""
+    from mashumaro.core.const import Sentinel
+    ns = {}
+    for o in ("omit_none", "omit_default", "serialize_by_alias", "namedtuple_as_dict", "no_copy_collections"):
+        for src in (D, B):
+            v = getattr(src, o)
+            if v is not Sentinel.MISSING:
+                ns[o] = v
+                break
+    ss = {}
+    for t in list(D.serialization_strategy) + [t for t in B.serialization_strategy if t not in D.serialization_strategy]:
+        ent = {}
+        for direction in ("serialize", "deserialize"):
+            for src in (D, B):
+                s = src.serialization_strategy.get(t)
+                if isinstance(s, dict):
+                    if s.get(direction) is not None:
+                        ent[direction] = s[direction]
+                        break
+                elif s is not None:
+                    ent[direction] = getattr(s, direction)      # bound method of the strategy object
+                    break
+        ss[t] = ent
+    ns["serialization_strategy"] = ss
+    return type("D", (Dialect,), ns)
+
+
 DIALECTS = {int(i): make_dialect(int(i), s) for i, s in SPEC["dialects"].items()}
+_BASE = DIALECTS[int(SPEC["base_dialect"])] if SPEC.get("base_dialect") is not None else None
 if TWINSPEC is None:
     # the family as the user wrote it: its classes may have a default dialect of their own
-    TWIN = DIALECTS[int(SPEC["base_dialect"])] if SPEC.get("base_dialect") is not None else None
+    TWIN = _BASE
 elif TWINSPEC[0] == "idx":
     TWIN = DIALECTS[TWINSPEC[1]]
-else:                                          # ("mod", i, ((option, replacement value or None), ...))
+elif TWINSPEC[0] == "merge":                   # the classes' own default dialect with D merged in by the REAL Dialect.merge
+    TWIN = _BASE.merge(DIALECTS[TWINSPEC[1]])
+elif TWINSPEC[0] == "layer":                   # ... layered by hand
+    TWIN = layer_dialects(_BASE, DIALECTS[TWINSPEC[1]])
+else:                                          # ("mod" | "modlayer", i, ((option, replacement value or None), ...))
     _s = dict(SPEC["dialects"][str(TWINSPEC[1])])
     for _o, _v in TWINSPEC[2]:
         _s[_o] = _v
     TWIN = make_dialect(TWINSPEC[1], _s)
+    if TWINSPEC[0] == "modlayer":
+        TWIN = layer_dialects(_BASE, TWIN)
 
 
 def make_config(cfg, support=True):
@@ -197,6 +233,21 @@ class Family:
                 v = [self.instance(name, x) for x in v]
             kw[f] = v
         return self.ns[name](**kw)
+
+
+def release_builders():
+    """The library memoises CodeBuilder methods with functools.lru_cache (get_field_default without bound), which keeps
+    every builder -- and with it every class family ever created in this process -- alive.  A finished history's families
+    are dropped here so that the thorough tier stays small (the memo is keyed by builder instance: nothing a later
+    family could observe)."""
+    try:
+        from mashumaro.core.meta.code.builder import CodeBuilder
+        for f in (CodeBuilder.__dict__.get("get_field_default"), CodeBuilder.__dict__.get("get_config"),
+                  getattr(CodeBuilder.__dict__.get("dataclass_fields"), "fget", None)):
+            if hasattr(f, "cache_clear"):
+                f.cache_clear()
+    except Exception:  # noqa: BLE001  (a library without these memos: nothing to release)
+        pass
 
 
 # ---------------------------------------------------------------------------
